@@ -86,6 +86,22 @@ class C03(Prop):
                 reads.append([rng.choice([-1, 1, 2]), s0, e0, rng.choice([0, 60, -300])])
             for be in storelib.BACKENDS:
                 out.append(("epoch-window", {"backend": be, "events": evs, "reads": reads, "replace": []}))
+        # windows whose edges are given in a zone with daylight saving, around the hour that the clocks repeat
+        ENDS = {"Europe/Berlin": 1635642000, "America/New_York": 1636264800, "Australia/Lord_Howe": 1617462000}
+        for _ in range(ctx.pick(40, 600)):
+            zone = rng.choice(sorted(ENDS))
+            base = ENDS[zone] * 1_000_000
+            evs = [[None, base + rng.randrange(-7200, 7200) * 1_000_000, rng.choice([0, 60_000_000, 600_000_000]), rng.choice([LA, LB])]
+                   for _ in range(rng.randint(1, 5))]
+            reads = []
+            for _ in range(5):
+                s0 = rng.choice([None, base + rng.randrange(-7200, 3600) * 1_000_000])
+                e0 = rng.choice([None, base + rng.randrange(-3600, 7200) * 1_000_000 + rng.choice([0, 999, 500_000])])
+                if s0 is not None and e0 is not None and e0 < s0:
+                    s0, e0 = e0, s0
+                reads.append([rng.choice([-1, -1, 1, 2]), s0, e0, zone])
+            for be in storelib.BACKENDS:
+                out.append(("dst-window", {"backend": be, "events": evs, "reads": reads, "replace": []}))
         # buckets that begin before the epoch (negative instants): events that end before it, reach across it, touch it;
         # windows open on either side, wholly before it, across it
         for _ in range(ctx.pick(60, 900)):
@@ -126,8 +142,15 @@ class C03(Prop):
             stored = storelib.dump(store)["w"]["events"]
             outs = []
             for lim, s, e, off in case["reads"]:
-                sd = us_to_dt(s, off) if s is not None else None
-                ed = us_to_dt(e, off) if e is not None else None
+                if isinstance(off, str):
+                    # window edges given in a real zone with daylight saving (zoneinfo sets the fold of an ambiguous wall time)
+                    from zoneinfo import ZoneInfo
+
+                    sd = us_to_dt(s, 0).astimezone(ZoneInfo(off)) if s is not None else None
+                    ed = us_to_dt(e, 0).astimezone(ZoneInfo(off)) if e is not None else None
+                else:
+                    sd = us_to_dt(s, off) if s is not None else None
+                    ed = us_to_dt(e, off) if e is not None else None
                 r = [ev_tuple(x) for x in b.get(lim, sd, ed)]
                 c = b.get_eventcount(sd, ed)
                 outs.append({"get": r, "count": c})
